@@ -128,7 +128,7 @@ class World:
         if isinstance(obj, types.ModuleType) or isinstance(obj, type) or isinstance(obj, enum.Enum):
             try: return getattr(obj, name)
             except AttributeError as e: raise PyExc(AttributeError, e.args)
-        if isinstance(obj, (str, tuple, list, dict, set, frozenset, int, float, LocalList, LocalDict, GenList)):
+        if isinstance(obj, (str, tuple, list, dict, set, frozenset, int, float, LocalList, LocalDict, GenList, types.MappingProxyType)):
             try: m = getattr(obj, name)
             except AttributeError as e: raise PyExc(AttributeError, e.args)
             return m
@@ -223,7 +223,7 @@ class World:
         if isinstance(obj, (LocalList, LocalDict)):
             try: return f(*args, **kw)
             except Exception as e: raise PyExc(type(e), e.args)
-        if isinstance(obj, (str, tuple, frozenset, int, float)) or (isinstance(obj, (dict, list, set)) and name in READONLY_METHODS):
+        if isinstance(obj, (str, tuple, frozenset, int, float)) or (isinstance(obj, (dict, list, set, types.MappingProxyType)) and name in READONLY_METHODS):
             if any(is_sym(x) for x in args):
                 if isinstance(obj, dict) and name == 'get':
                     raise Outside('dict.get with symbolic key')
